@@ -17,7 +17,7 @@ Extraction "model.ml"
   node_case node_step recover classify ops_visible
   run_script reinit_hash hash_input
   accepts round_outcome aclass_of
-  result_of result_line coeffs_coincide group_coincides shares_coincide tick_waits_during_command
+  result_of result_line coeffs_coincide group_coincides shares_coincide tick_waits_during_command gap_saves_without_password
   lagrange0_z share_z group_secret_z eval_poly
   pending_after a_labels b_labels in_lost_window
   send_seq get_messages Gen.Skeletons.count_limit Gen.Skeletons.read_limit.
